@@ -248,7 +248,7 @@ Lemma uv_copy T s d :
 Proof.
   intros Hs Hd. unfold u_copy. destruct s as [|a s]; auto. destruct d as [|b d]; auto.
   rewrite (t_has_uv T _ Hs), (t_has_uv T _ Hd).
-  destruct (is_prefix (a :: s) (b :: d) || negb (t_has T (a :: s)) || t_has T (b :: d)); auto.
+  destruct (negb (t_has T (a :: s)) || t_has T (b :: d)); auto.
   rewrite <- (uv_t_mkgroups T _ (user_path_parent _ Hd)).
   destruct (t_mkgroups T (parent (b :: d))); simpl; auto.
   now rewrite uv_app, uv_rename_user, uv_sub.
@@ -529,7 +529,7 @@ Qed.
 Lemma u_copy_missing T s d : t_has T s = false -> u_copy T s d = None.
 Proof.
   intros H. unfold u_copy. destruct s; auto. destruct d; auto.
-  rewrite H. simpl. now rewrite orb_true_r.
+  rewrite H. reflexivity.
 Qed.
 
 Lemma copy_view st s d wm :
